@@ -104,8 +104,21 @@ def check_chain(rep, wd, roots_path, outputs, seed, coverage=True):
     tp, info, events = record_chain(wd, roots_path, outputs, seed)
     case = {"kind": "chain", "outputs": outputs, "seed": seed}
     # a delivery with the wrong result class ends the recording: that event is the verdict
-    for ev in events:
+    for n, ev in enumerate(events):
         if ev["k"] == "Result":
+            # an earlier divergence of the commitment is the narrower verdict: decide the prefix first
+            if n > 0:
+                pp = os.path.join(wd, "trace_prefix.ndjson")
+                vlib.write_ndjson(pp, events[:n])
+                okp, dp = validate_trace(pp, "prefix")
+                if not okp:
+                    evp = events[dp - 1] if dp and dp - 1 < n else {"k": "eof"}
+                    keep = os.path.join(vlib.OUT, "replays", "C15_trace_%d.ndjson" % seed)
+                    os.makedirs(os.path.dirname(keep), exist_ok=True)
+                    shutil.copy(pp, keep)
+                    small = {k: v for k, v in evp.items() if k not in ("leaf", "fs", "accbits")}
+                    rep.violation(classify(evp), dict(case, trace=keep, event_index=dp, event=small), json.dumps(small)[:600])
+                    return info, events, None
             what = str(ev.get("what", ""))
             sig = "bitmap:chain:result:%s:%s->%s" % (what, ev.get("exp"), str(ev.get("res"))[:40])
             rep.violation(sig, dict(case, event=ev), json.dumps(ev)[:600])
@@ -145,18 +158,22 @@ def run(tier, replay):
         rep.coverage = {"states": 1, "transitions": 1, "traces_validated_against_impl": 1, "samples": [obj["signature"]]}
         return rep.finish()
 
+    if os.environ.get("VERIF_C15_DEV") == "chain":
+        # development aid for mutant runs (never used by a registered command): chain part only
+        _, roots, _ = emit("mc/MC_Bitmap_seq", "roots", 600)
+        roots_path = os.path.join(wd, "roots.json")
+        json.dump(roots, open(roots_path, "w"))
+        info, events, tr = check_chain(rep, wd, roots_path, 2150 if thorough else 300, seed, coverage=False)
+        rep.coverage = {"states": 0, "transitions": 0, "traces_validated_against_impl": 1, "samples": [info], "dev_mode": "chain"}
+        return rep.finish()
+
     # ---------------------------------------------------------------- (M) the design, exhaustively
-    r = vlib.tlc("mc/MC_Bitmap", "mc/MC_Bitmap" + sfx, workers=4, coverage=not thorough, timeout=2400)
+    r = vlib.tlc("mc/MC_Bitmap", "mc/MC_Bitmap" + sfx, workers=4, coverage=False, timeout=2400)
     if r.invariant_violated:
         print(r.out[-3000:])
         raise ToolError("Bitmap.tla invariant %s violated inside the model" % r.invariant_violated)
     vlib.tlc_ok(r, "MC_Bitmap")
     states, trans = r.distinct, r.generated
-    mc_actions = {k: v[1] for k, v in r.action_counts().items()}
-    if not thorough:
-        for a in ("MCApply", "MCRewind", "MCReopen"):
-            if mc_actions.get(a, 0) == 0:
-                raise ToolError("spec action %s never taken" % a)
     log("MC_Bitmap%s: %d states, %d transitions, %.0fs" % (sfx, states, trans, r.wall))
 
     # design probes: a caller that forgets an affected index / an environment without "last leaf unspent"
@@ -181,6 +198,12 @@ def run(tier, replay):
         if key not in seen:
             seen.add(key)
             cases.append(b)
+    mc_actions = {}
+    for b in beh1:      # one behaviour per transition of the model: transitions by action
+        mc_actions[b[-1]["k"]] = mc_actions.get(b[-1]["k"], 0) + 1
+    for a in ("Apply", "Rewind", "Reopen"):
+        if mc_actions.get(a, 0) == 0:
+            raise ToolError("spec action %s never taken" % a)
     if len(beh1) < 1000 or len(beh2) < 1000 or len(beh3) < 100:
         raise ToolError("too few behaviours generated (%d, %d, %d)" % (len(beh1), len(beh2), len(beh3)))
     log("behaviours: %d transitions + %d sequences + %d simulated = %d distinct (TLC %.0f+%.0f+%.0fs)" % (
@@ -282,7 +305,7 @@ def run(tier, replay):
         "samples": [{"component_behaviour": sample_case},
                     {"chain_events": [{k: v for k, v in ev.items() if k not in ("leaf", "fs", "accbits")} for ev in events[1:4]]}],
         "exhaustive": True,
-        "model": {"config": "mc/MC_Bitmap" + sfx, "actions": mc_actions, "design_probes": probes},
+        "model": {"config": "mc/MC_Bitmap" + sfx, "transitions_by_action": mc_actions, "design_probes": probes},
         "replayed_behaviours": {"every_transition": len(beh1), "all_short_sequences": len(beh2), "simulated": len(beh3),
                                  "distinct": len(cases), "steps_by_kind": steps_by_kind, "comparisons": checks},
         "quantifier_shapes_reached": shapes,
